@@ -17,8 +17,12 @@ Definition sel_after_latch (s : agent) (src : addr) : option pair :=
   else a_selected s.
 
 (* the remote candidate list after the learning step (E2) *)
-Definition remotes_after (s : agent) (src : addr) : list cand :=
-  a_remotes s ++ (if known (a_remotes s) src then [] else [prflx src]).
+Definition remotes_after (s : agent) (sk : skind) (src : addr) : list cand :=
+  a_remotes s ++ (if known (a_remotes s) src then [] else [prflx_k sk src]).
+
+(* the local candidate complete_controlled_inbound_tcp_nomination pairs with: first lookup, else the fallback *)
+Definition find_local_tcp (ls : list cand) (la : addr) : option cand :=
+  match find_local_tcp1 ls la with Some l => Some l | None => find_local_tcp2 ls la end.
 
 (* the same datagram with other credential facts / PRIORITY value *)
 Definition with_auth (k : packet) (hu uo hm mo : bool) (pr : Z) : packet :=
@@ -26,7 +30,14 @@ Definition with_auth (k : packet) (hu uo hm mo : bool) (pr : Z) : packet :=
 
 (* ------------------------------------------------------------------ F18 witness: a controlled agent that has just been started, a stranger, a request without credentials *)
 Definition f18_local : cand :=
-  mkCand (2130706433, 50000) (2130706433, 50000) IceCandidateType_Host (priority_for IceCandidateType_Host 1) false.
+  mkCand (2130706433, 50000) (2130706433, 50000) IceCandidateType_Host (priority_for IceCandidateType_Host 1) false false.
+(* ... and its passive ICE-TCP host candidate *)
+Definition f18_local_tcp : cand :=
+  mkCand (2130706433, 50001) (2130706433, 50001) IceCandidateType_Host
+         (priority_for_tcp IceCandidateType_Host 1 TcpType_Passive) true true.
+Definition f18_agent_tcp : agent := fst (step (init IceRole_Controlled false [f18_local; f18_local_tcp]) ApiStart).
+(* Binding request without USE-CANDIDATE, without USERNAME, without MESSAGE-INTEGRITY *)
+Definition f18_request_plain : packet := mkPkt 0 1 true 1235 false false false false false 0 0.
 
 Definition f18_agent : agent := fst (step (init IceRole_Controlled false [f18_local]) ApiStart).
 
@@ -38,7 +49,7 @@ Definition f18_request : packet := mkPkt 0 1 true 1234 true false false false fa
 (* ------------------------------------------------------------------ a response whose transaction id is not pending when it arrives; a run that skips those *)
 Definition unsolicited (s : agent) (o : op) : bool :=
   match o with
-  | Pkt _ _ k =>
+  | Pkt _ _ _ k =>
       match classify k with
       | CSucc | CErr => negb (is_some (lookup (k_tx k) (a_pending s)))
       | _ => false
@@ -55,7 +66,7 @@ Fixpoint run_skip (s : agent) (ops : list op) : agent :=
 (* ------------------------------------------------------------------ a request without valid credentials *)
 Definition unauth_req_op (o : op) : bool :=
   match o with
-  | Pkt _ _ k => match classify k with CReq => negb (authenticated k) | _ => false end
+  | Pkt _ _ _ k => match classify k with CReq => negb (authenticated k) | _ => false end
   | _ => false
   end.
 
@@ -69,10 +80,10 @@ Definition raddr (t : txn) : addr := c_addr (p_remote (t_pair t)).
 
 (* a packet handler that either ignores a datagram or treats it like the code does, and in the
    latter case only processes the requests `acc` admits *)
-Definition refines (acc : packet -> bool) (onp : agent -> addr -> addr -> packet -> agent * list out) : Prop :=
-  forall s la src k,
-    fst (onp s la src k) = s \/
-    (fst (onp s la src k) = fst (on_packet s la src k) /\ (classify k = CReq -> acc k = true)).
+Definition refines (acc : packet -> bool) (onp : agent -> skind -> addr -> addr -> packet -> agent * list out) : Prop :=
+  forall s sk la src k,
+    fst (onp s sk la src k) = s \/
+    (fst (onp s sk la src k) = fst (on_packet s sk la src k) /\ (classify k = CReq -> acc k = true)).
 
 (* addresses that were signalled (add_remote_candidate), chosen through the API (select_pair) or are
    the source of a request the handler admits *)
@@ -80,7 +91,7 @@ Definition trusted_op (acc : packet -> bool) (o : op) : list addr :=
   match o with
   | ApiAddRemote c => [c_addr c]
   | ApiSelectPair p => [c_addr (p_remote p)]
-  | Pkt _ src k => match classify k with CReq => if acc k then [src] else [] | _ => [] end
+  | Pkt _ _ src k => match classify k with CReq => if acc k then [src] else [] | _ => [] end
   | _ => []
   end.
 
@@ -95,7 +106,7 @@ Definition env_ok_op (s : agent) (o : op) : Prop :=
   | _ => True
   end.
 
-Fixpoint env_ok (onp : agent -> addr -> addr -> packet -> agent * list out) (s : agent) (ops : list op) : Prop :=
+Fixpoint env_ok (onp : agent -> skind -> addr -> addr -> packet -> agent * list out) (s : agent) (ops : list op) : Prop :=
   match ops with
   | [] => True
   | o :: r => env_ok_op s o /\ env_ok onp (fst (step_with onp s o)) r
